@@ -60,8 +60,8 @@ theorem countLt_self {c : List Nat} (hc : c.Pairwise (· < ·)) {j : Nat} (hj : 
   · exact Or.inl h0
   · exact Or.inr (getD_lt_of_lt hc (by omega) hj)
 
-/-- **value and meaning of `sub_mesh_pattern`** for a non-empty, strictly increasing, in-range index list -/
-theorem subMesh_eval (μ : Mesh) (c : List Nat) (hπ : IsPerm μ.pattern) (hc : StrictInc c) (hne : c ≠ [])
+/-- **value and meaning of `sub_mesh_pattern`** for a strictly increasing, in-range index list (the empty one included) -/
+theorem subMesh_eval (μ : Mesh) (c : List Nat) (hπ : IsPerm μ.pattern) (hc : StrictInc c)
     (hr : ∀ i ∈ c, i < μ.pattern.length) :
     ∃ sh, subMeshPattern μ c = .ok ⟨standardize (Spec.pick μ.pattern c), sh⟩ ∧
       ∀ x y, (x, y) ∈ sh ↔ Spec.SubShaded μ c x y := by
@@ -77,7 +77,7 @@ theorem subMesh_eval (μ : Mesh) (c : List Nat) (hπ : IsPerm μ.pattern) (hc : 
     rw [List.any_eq_false]; intro i hi; have := hr i hi; simp; omega
   unfold subMeshPattern
   rw [mergeSort_strictInc hc]
-  simp only [hne, if_false, hany, Bool.false_eq_true]
+  simp only [hany, Bool.false_eq_true, if_false]
   have e1 : [0] ++ List.map (fun x => x + 1) c ++ [μ.pattern.length + 1]
       = bnd (c.map (· + 1)) μ.pattern.length := rfl
   have e2 : ([0] ++ (List.map (fun i => μ.pattern.getD i 0 + 1) c).mergeSort (fun x1 x2 => decide (x1 ≤ x2)) ++
